@@ -20,6 +20,7 @@ import Proofs.SemaphoreSysLive
 import Proofs.SemaphoreQueue
 import Proofs.SemaphoreRefresh
 import Proofs.SemaphoreStanding
+import Proofs.SemaphoreMJP
 import Gen.Facts
 
 namespace Props.C12
@@ -394,6 +395,36 @@ theorem reattach_dropped_running_jobs_before_fix :
     ((MJ.init 2).run [.attempt 3 .running true, .attempt 1 .running true,
         .attempt 7 .waiting false, .attempt 8 .waiting false]).running = [3, 1] := by
   decide
+
+/-! ### MaxJobsSemaphore with its callers: wake-ups (model Martian/SemaphoreMJP.lean)
+
+The callers blocked in `cond.Wait()` and the signalled ones are part of the
+state; `Signal` after `Release`, `Broadcast`/`Signal` in `FindDone`, `Broadcast`
+in `Clear`, and the deferred `Signal` on every return from inside `Acquire`. -/
+
+/-- **No parked caller is forgotten.**  After every sequence of Acquire calls
+(new or resumed after a wake-up, any metadata states), Release, FindDone and
+Clear: if a slot is free and some caller is parked in `cond.Wait()`, then some
+caller has been signalled and will look at the semaphore again. -/
+theorem maxjobs_no_parked_caller_is_forgotten (L : Int) (ops : List MJPOp) :
+    ((MJP.init L).run ops).NoLostWakeup :=
+  MJP.run_noLost _ ops (by intro _; left; rfl)
+
+/-- … so at quiescence (every signalled caller has run) nobody is parked while a
+slot is free — what the harness monitors on the real semaphore (`lost-wakeup`). -/
+theorem maxjobs_quiescent_room_nobody_parked (L : Int) (ops : List MJPOp)
+    (hq : ((MJP.init L).run ops).woken = []) (hroom : ((MJP.init L).run ops).room) :
+    ((MJP.init L).run ops).parked = [] := by
+  rcases maxjobs_no_parked_caller_is_forgotten L ops hroom with h | h
+  · exact h
+  · exact absurd hq h
+
+/-- the bound of `maxjobs_le_limit` for the model with callers (its `running`
+component evolves by `MJ.attempt` / `MJ.step`) -/
+theorem maxjobs_with_callers_le_limit (L : Int) (hL : 0 ≤ L) (ops : List MJPOp) :
+    (((MJP.init L).run ops).running.length : Int) ≤ L ∧ ((MJP.init L).run ops).running.Nodup := by
+  have := MJP.run_inv L hL ops (MJP.init L) (MJ.init_inv L hL)
+  exact ⟨this.le, this.nodup⟩
 
 /-! ## GetSystemReqs / Enqueue (after float → integer conversion) -/
 
@@ -1412,6 +1443,16 @@ example :
     let c : LocalCfg := ⟨4, 8, 0, 1, 1, 0⟩
     Sane c ∧ localSizes c (some (4096 - startingThreadCount)) = [400, 8192, 4051] ∧
     localAmounts c true (acquireAmounts (normalize c 8192 0 ⟨700, 20000, 0⟩)) = [400, 8192, 19] := by decide
+
+/-- limit 1: caller 1 (job 7) gets the slot, callers 2 and 3 (jobs 8, 9) park; job 8 is cancelled
+meanwhile; Release signals caller 2, which returns false and — by the deferred Signal — hands the
+wake-up on to caller 3, which gets the slot: quiescent, nobody parked -/
+example :
+    let s := (MJP.init 1).run [.enter 1 7 .queued false, .enter 2 8 .queued false, .enter 3 9 .queued false,
+      .release 7, .resume 2 .other, .resume 3 .queued]
+    ((MJP.init 1).run [.enter 1 7 .queued false, .enter 2 8 .queued false, .enter 3 9 .queued false]).parked
+      = [(2, 8), (3, 9)] ∧
+    s.running = [9] ∧ s.parked = [] ∧ s.woken = [] := by decide
 
 /-- an update that grows the size by 1 wakes the waiter that now fits -/
 example : observedSize ⟨8192, 8091, 0, [(1, 8092)]⟩ (.updActual 8092) = some 8092 ∧
